@@ -264,6 +264,10 @@ class Registry:
         if info is None:
             raise Unsupported(f"contract {c.name} on a non-Python function")
         locals_ = I.bind_args(fn, info.node, args, kwargs)
+        vk = info.node.args.kwarg.arg if info.node.args.kwarg is not None else None
+        for nm in c.params:
+            if nm not in locals_ and vk and isinstance(locals_.get(vk), dict) and nm in locals_[vk]:
+                locals_[nm] = locals_[vk][nm]  # a contract parameter passed through **kwargs
         for nm in c.params:
             if nm not in locals_:
                 # ghost parameter of the callee: supplied by the caller's ghost of the same name
